@@ -82,6 +82,28 @@ theorem C05_refuses_leading (a b : Tensor S) (ta tb : Bool) (c : Option (Tensor 
     matmul a ta b tb c = .error .incompatible :=
   matmul_refuses_leading a b ta tb c la lb a1 a2 b1 b2 hda hdb hc
 
+/-- **A rank-1 operand next to a rank ≥ 2 operand behaves as a one-row matrix**: with agreeing inner
+    dimensions, `matmul` of the vector is, literally, `matmul` of the `1 × k` matrix with the same
+    values — whose value is given by `C05_product`. -/
+theorem C05_rank1_left (av : List S) (k : Nat) (b : Tensor S) (tb : Bool) (lb : List Nat) (b1 b2 : Nat)
+    (hdb : b.dims = lb ++ [b1, b2]) (hinner : k = if tb then b2 else b1) :
+    matmul (⟨[k], av⟩ : Tensor S) false b tb none = matmul (⟨[1, k], av⟩ : Tensor S) false b tb none :=
+  matmul_rank1_left av k b tb lb b1 b2 hdb hinner
+
+/-- …hence the value: the one-row product of the specification. -/
+theorem C05_rank1_left_value (av : List S) (k : Nat) (b : Tensor S) (tb : Bool) (lb : List Nat) (b1 b2 : Nat)
+    (hdb : b.dims = lb ++ [b1, b2]) (hinner : k = if tb then b2 else b1)
+    (hwa : (⟨[1, k], av⟩ : Tensor S).WF) (hwb : b.WF) :
+    matmul (⟨[k], av⟩ : Tensor S) false b tb none = .ok (specMatmul (⟨[1, k], av⟩ : Tensor S) false b tb none) := by
+  rw [matmul_rank1_left av k b tb lb b1 b2 hdb hinner]
+  exact matmul_spec_none _ b false tb [] lb 1 k b1 b2 rfl hdb hwa hwb (compat_nil_left lb) (by simpa using hinner)
+
+/-- **Two untransposed rank-1 operands give their dot product**, as a one-element array. -/
+theorem C05_dot (av bv : List S) (k : Nat) (hk : 1 ≤ k) (ha : av.length = k) (hb : bv.length = k) :
+    matmul (⟨[k], av⟩ : Tensor S) false ⟨[k], bv⟩ false none
+      = .ok ⟨[1], [zero + sumList ((List.range k).map (fun t => av.getD t zero * bv.getD t zero))]⟩ :=
+  matmul_dot av bv k hk ha hb
+
 /-! non-vacuity: a batched, transposed instance meets every hypothesis of `C05_product` / `C05_bias` -/
 example : Compat [1, 2] [2, 1] = true ∧ bdims [1, 2] [2, 1] = [2, 2] := by decide
 example : (⟨[2, 1, 2, 3], List.replicate 12 (1 : Int)⟩ : Tensor Int).WF := by
@@ -97,3 +119,6 @@ end Corgi
 #print axioms Corgi.C05_shape
 #print axioms Corgi.C05_refuses_inner
 #print axioms Corgi.C05_refuses_leading
+#print axioms Corgi.C05_rank1_left
+#print axioms Corgi.C05_rank1_left_value
+#print axioms Corgi.C05_dot
